@@ -1,7 +1,8 @@
 //! C16 — Gibbs sampler state always equals a recomputation from its alignment.
 //!
 //! case:   c16run <dna|protein> <oops|zoops> <cols> <w> <initial> <inertia> <patience> <rngseed> <maxsteps> <wrap>
-//!                <n> { <L> <sym>×L }×n
+//!                <native|generic|sse2|avx2> <n> { <L> <sym>×L }×n
+//!         (the backend token forces the arm taken by every `Pipeline::dispatch()`: striping and scoring)
 //!                | new-panic
 //!                | ok <start>×n <ns> <seed>×ns <T> { <z> <newstart> <discard> }×T <end|more|panic>
 //!         The part before `|` is the input (data, parameters, rng seed); the part after it is what
@@ -24,6 +25,7 @@ use lightmotif::abc::Protein;
 use lightmotif::dense::DefaultColumns;
 use lightmotif::num::Unsigned;
 use lightmotif::pli::dispatch::Dispatch;
+use lightmotif::pli::verif;
 use lightmotif::pli::Pipeline;
 use lightmotif::pli::Score;
 use lightmotif::pli::Stripe;
@@ -48,6 +50,7 @@ pub struct Spec {
     rngseed: u64,
     maxsteps: usize,
     wrap: usize,
+    backend: String,
     seqs: Vec<Vec<usize>>,
 }
 
@@ -62,7 +65,7 @@ impl Spec {
 
     fn input(&self) -> String {
         let mut s = format!(
-            "c16run {} {} {} {} {} {} {} {} {} {} {}",
+            "c16run {} {} {} {} {} {} {} {} {} {} {} {}",
             self.alpha,
             if self.zoops { "zoops" } else { "oops" },
             DefaultColumns::USIZE,
@@ -73,6 +76,7 @@ impl Spec {
             self.rngseed,
             self.maxsteps,
             self.wrap,
+            self.backend,
             self.seqs.len()
         );
         for q in &self.seqs {
@@ -89,8 +93,8 @@ impl Spec {
         let t: Vec<&str> = line.split_whitespace().collect();
         assert_eq!(t[0], "c16run");
         let u = |i: usize| -> usize { t[i].parse().unwrap() };
-        let n = u(11);
-        let mut p = 12;
+        let n = u(12);
+        let mut p = 13;
         let mut seqs = Vec::new();
         for _ in 0..n {
             let l: usize = t[p].parse().unwrap();
@@ -107,6 +111,7 @@ impl Spec {
             rngseed: t[8].parse().unwrap(),
             maxsteps: u(9),
             wrap: u(10),
+            backend: t[11].to_string(),
             seqs,
         }
     }
@@ -226,11 +231,16 @@ where
 }
 
 fn run_spec(spec: &Spec) -> Trace {
-    if spec.alpha == "dna" {
+    if spec.backend != "native" {
+        assert!(verif::force_backend(&spec.backend));
+    }
+    let tr = if spec.alpha == "dna" {
         run_sampler::<Dna>(spec, DNA)
     } else {
         run_sampler::<Protein>(spec, PROTEIN)
-    }
+    };
+    verif::clear();
+    tr
 }
 
 fn fmt_mat(m: &[Vec<u32>]) -> String {
@@ -510,6 +520,7 @@ pub fn generate(cfg: &Cfg) -> Vec<String> {
                     rngseed: rng.next(),
                     maxsteps,
                     wrap: w + rng.below(3),
+                    backend: (*rng.pick(&["native", "native", "generic", "sse2", "avx2"])).into(),
                     seqs,
                 });
             }
@@ -534,6 +545,7 @@ pub fn generate(cfg: &Cfg) -> Vec<String> {
                 rngseed: rng.next(),
                 maxsteps: if cfg.thorough { 400 } else { 100 },
                 wrap: w + rng.below(40),
+                backend: (*rng.pick(&["native", "generic", "sse2", "avx2"])).into(),
                 seqs,
             });
         }
@@ -549,6 +561,7 @@ pub fn generate(cfg: &Cfg) -> Vec<String> {
                 rngseed: rng.next(),
                 maxsteps: 40,
                 wrap: w,
+                backend: "native".into(),
                 seqs: dataset(rng, k, n, w, 20),
             };
             // one sequence, Oops: nothing remains once it is held out
@@ -593,6 +606,7 @@ pub fn run(cfg: &Cfg) {
         let d = exec(c);
         let t: Vec<&str> = d.line.splitn(6, ' ').collect();
         out.stat(&format!("{}/{}", t[1], t[2]));
+        out.stat(&format!("backend/{}", d.line.split(' ').nth(11).unwrap()));
         out.stat(&format!("width/{:02}", t[4].parse::<usize>().unwrap()));
         out.stat(match (d.new_panic, d.end) {
             (true, _) => "end/new-panic",
